@@ -228,7 +228,19 @@ def handleStartup (f : List String) : String × String × String :=
       -- the outage was transient by construction (at most k reads rejected, then the store answers)
       let recovered := svc == "Running" && entry == "A" && nt == n
       let judge := if hit ≤ k && !recovered then "startup-not-recovered-after-read-outage" else "-"
-      ("-", judge, s!"startup=1 gen={gen} fails={k} hit={if hit == 0 then "0" else "1+"}")
+      -- model: `waitBeforeJoining` makes k+1 attempts iff the generator has a can-join check, then the join proceeds
+      let canJoin := gen != "random"
+      let c : Cfg := { id := "i", numTokens := n }
+      let r := C09.joinTimerWithReads c { started := true } .absent (some [{ id := "i", state := .PENDING }]) 0
+        (fun _ _ => List.range n) canJoin 300 (fun j => if j < k then .fail else .ok)
+      let mHit := r.2 - 1
+      let mState := match r.1.out with
+        | .write d => (match d.get? "i" with | some b => b.state.code | none => "-")
+        | _ => "-"
+      let mTok := r.1.l.tokens.length
+      let model := [toString mHit, "Running", mState, toString mTok]
+      let diff := if model == [toString hit, svc, entry, toString nt] then "-" else "model=" ++ " ".intercalate model
+      (diff, judge, s!"startup=1 gen={gen} fails={k} hit={if hit == 0 then "0" else "1+"}")
     | _, _, _, _ => ("bad-input", "-", "startup=1")
   | _ => ("bad-fields", "-", "startup=1")
 
